@@ -39,7 +39,7 @@ func (s *c06mStream) Close() error                { return s.c.Close() }
 
 func TestVerif_C06_Manager(t *testing.T) {
 	acct := vacct.Get("C06")
-	vacct.RapidCheck(t, vacct.N(30, 2000), func(rt *rapid.T) {
+	vacct.RapidCheck(t, vacct.N(30, 6000), func(rt *rapid.T) {
 		w := vNewReplica(t, "B", nil)
 		defer w.close()
 		gc := w.open(t, w.accountGroup(t))
